@@ -50,8 +50,12 @@ class ExprGen:
         r = self.rng.random()
         if r < 0.65:
             return self.rng.choice(names)
-        if r < 0.9:
+        if r < 0.87:
             return self.rng.choice(["0.5", "2.0", "1.5", "3", "1", "0.25"])
+        if r < 0.9:
+            # literals of other magnitudes and spellings: whole-valued floats beyond 32 and 53 bits, tiny values, exponents
+            self.feats.add("literal_of_unusual_magnitude")
+            return self.rng.choice(["5e9", "1e12", "3000000000.0", "4294967296.0", "1e-12", "2.5e-7", "6.022e23", "123456789", "1e3"])
         self.feats.add("math_constant")
         return self.rng.choice(["math.pi", "math.e", "np.pi"])
 
